@@ -24,6 +24,8 @@ SUBJ = ["a", "b", "c", "d"]
 TABLE = {
     "g1": {"m": [1.0, None, 3.0, 8.0], "k": [None, 2.5, None, 4.5]},
     "g2": {"m": [10.0, 20.0, None, 5.0], "k": [7.0, None, None, None]},
+    # columns without missing entries, not in ascending order: `get` hands out the stored list itself
+    "g3": {"m": [9.0, 2.0, 7.0, 4.0], "k": [6.0, 5.0, 8.0, 1.0]},
 }
 
 
@@ -32,7 +34,22 @@ class _ArrMeth:
         self.vals, self.name = vals, name
 
 
+class _SortedSym:
+    def __init__(self, items):
+        self.items = items
+
+
 class StatQ(FSInterp):
+    def subscript_hook(self, base, idx, node):
+        if isinstance(base, _SortedSym) and isinstance(idx, int):
+            return Tagged("order-statistic", [tuple(base.items), idx])
+        return super().subscript_hook(base, idx, node)
+
+    def iterate(self, it, node):
+        if isinstance(it, _SortedSym):
+            return [Tagged("order-statistic", [tuple(it.items), i]) for i in range(len(it.items))]
+        return super().iterate(it, node)
+
     def __init__(self, *a, **kw):
         super().__init__(*a, **kw)
         self.root.lists_are_arrays = True
@@ -82,6 +99,10 @@ class StatQ(FSInterp):
     def call_builtin(self, name, args, kwargs, node):
         if name == "float" and args and isinstance(args[0], Tagged):
             return args[0]
+        if name == "sorted" and len(args) == 1 and not kwargs and isinstance(args[0], (list, tuple)) and any(isinstance(x, Tagged) for x in args[0]):
+            return _SortedSym(list(args[0]))  # symbolic values: the order statistics stay opaque
+        if name == "len" and args and isinstance(args[0], _SortedSym):
+            return len(args[0].items)
         if name in ("min", "max") and args and isinstance(args[0], (list, tuple)) and args[0] and all(isinstance(x, Tagged) for x in args[0]):
             return Tagged(name, [tuple(args[0])])
         if name == "sum" and args and isinstance(args[0], list) and args[0] and all(isinstance(x, list) for x in args[0]):
@@ -168,12 +189,28 @@ def check_summaries(ctx: Ctx):
         ctx.decide("R20.4", f, f.node, f"{f.qual}:{s}", "per-subject lookup returns that subject's own values for every group and metric", out.kind == "return" and not out.decisions and out.value == want, {"got": repr(out.value)[:160], "want": repr(want)})
     # repeatability: queries (also get / get_across_groups) leave the table untouched
     f, out = q(ctx, st, "get_across_groups", ["m"])
-    want_all = TABLE["g1"]["m"] + TABLE["g2"]["m"]
+    want_all = [v for g in TABLE for v in TABLE[g]["m"]]
     ctx.decide("R20.6", f, f.node, f"{f.qual}:value", "get_across_groups returns the values of all groups", out.kind == "return" and out.value == want_all, {"got": repr(out.value)})
     ctx.decide("R20.6", f, f.node, f"{f.qual}:table-unchanged", "queries do not modify the stored table (later summaries still cover exactly the recorded values)", table == TABLE, {"table": repr(table)[:200]})
     f2, out2 = q(ctx, st, "get", ["g1", "m"])
     f3, out3 = q(ctx, st, "get", ["g1", "m", True])
     ctx.decide("R20.1", f2, f2.node, f"{f2.qual}:remove_nones", "get(..., remove_nones=True) drops exactly the missing entries", out3.kind == "return" and out3.value == [v for v in TABLE["g1"]["m"] if v is not None] and out2.kind == "return" and out2.value == TABLE["g1"]["m"], {"got": repr(out3.value)})
+    # a summary built by the caller from what `get` hands out (the stored list itself when nothing is
+    # missing) must leave the table as it is: per-subject lookups afterwards still give each subject its own
+    vcls = ctx.prog.cls("panoptica_statistics:ValueSummary")
+    f4, out4 = q(ctx, st, "get", ["g3", "m"])
+    if out4.kind == "return" and isinstance(out4.value, list):
+        try:
+            construct(ctx.prog, vcls, {vcls.lookup("__init__").call_params[0].name: out4.value}, interp_cls=StatQ)
+            built = True
+        except Undecided as e:
+            built = False
+            ctx.undecided("R20.6", vcls.lookup("__init__"), None, f"{vcls.qual}.__init__:caller-list", f"summary constructor not evaluable on the stored list: {e}")
+        if built:
+            ctx.decide("R20.6", vcls.lookup("__init__"), vcls.lookup("__init__").node, f"{vcls.qual}.__init__:caller-list", "summarising the list handed out by get() does not reorder or change the stored column", table["g3"]["m"] == TABLE["g3"]["m"], {"column_after": repr(table["g3"]["m"]), "recorded": repr(TABLE["g3"]["m"])})
+            fo, oo = q(ctx, st, "get_one_subject", ["b"])
+            want_b = {g: {m: TABLE[g][m][1] for m in TABLE[g]} for g in TABLE}
+            ctx.decide("R20.4", fo, fo.node, f"{fo.qual}:b:after-summary", "per-subject lookup after a caller-built summary still returns that subject's own values", oo.kind == "return" and oo.value == want_b, {"got": repr(oo.value)[:200]})
     # second pass after all queries: still the same
     f, out = q(ctx, st, "get_summary", ["g1", "m"])
     if out.kind == "return" and isinstance(out.value, Obj):
